@@ -489,39 +489,57 @@ def run(ck):
                 br_direct = any(w['ctx'] == 'Br' and not w['conds'] for w in writes)
                 ck.ob('R6.4', 'entry-block-reachable', entry, L.loc(fc['body']), 'the entry block is marked reachable unconditionally' if entry else 'the entry block is not marked reachable: a body whose patch-up walk reaches block 0 ends in the unreachable marker')
                 ck.ob('R6.4', 'brcond-targets-reachable', brcond >= 2, L.loc(fc['body']), '%d unconditional marks for BrCond targets' % brcond)
-                # forward closure over both edge kinds (worklist) feeding the vector for non-empty blocks
+                # forward closure over both edge kinds (worklist) feeding the vector for non-empty blocks; the closure may be computed
+                # here or in a helper that returns the vector
+                def forward_closure(fx, exclude_hid=None):
+                    """local (Path node) of the bool vector that a sound work-list closure of fx sets, or None."""
+                    for lp in (n for n in walk(fx['body']) if n.get('k') == 'Loop'):
+                        lc = next((x for x in walk(lp) if x.get('k') == 'LetCond' and any(c.get('m') == 'pop' for c in H.calls_in(x['e']))), None)
+                        if lc is None:
+                            continue
+                        stack = H.root_local(next(c for c in H.calls_in(lc['e']) if c.get('m') == 'pop')['recv'])
+                        if stack is None:
+                            continue
+                        pushed = {}
+                        for c in H.calls_in(lp):
+                            if c.get('m') in ('push', 'extend') and (H.root_local(c['recv']) or {}).get('hid') == stack['hid']:
+                                arm = next((a for a in H.ancestors(fx, c) if a.get('k') == 'Arm'), None)
+                                if arm is not None:
+                                    pt = pp(arm['pat'])
+                                    kind = 'BrCond' if 'BrCond' in pt else 'Br' if 'Terminator::Br' in pt else None
+                                    if kind:
+                                        pushed[kind] = pushed.get(kind, 0) + (1 if c['m'] == 'push' else len((H.strip_refs(c['args'][0]).get('es') or [0, 0])))
+                        if pushed.get('Br', 0) >= 1 and pushed.get('BrCond', 0) >= 2:
+                            lv = None
+                            for x in walk(lp):
+                                if x.get('k') == 'Index' and 'bool' in (L.ty(x) or '') and (H.root_local(x['e']) or {}).get('hid') != exclude_hid:
+                                    lv = H.root_local(x['e'])
+                            sb = H.binding_sites(fx).get(stack['hid'])
+                            init0 = sb is not None and sb['kind'] == 'let' and any(H.lit_value(x) == 0 for x in walk(sb['node']['init']))
+                            if lv is not None and init0:
+                                return lv
+                    return None
                 closure_ok = False
-                for lp in (n for n in walk(fc['body']) if n.get('k') == 'Loop'):
-                    lc = next((x for x in walk(lp) if x.get('k') == 'LetCond' and any(c.get('m') == 'pop' for c in H.calls_in(x['e']))), None)
-                    if lc is None:
-                        continue
-                    stack = H.root_local(next(c for c in H.calls_in(lc['e']) if c.get('m') == 'pop')['recv'])
-                    if stack is None:
-                        continue
-                    pushed = {}
-                    for c in H.calls_in(lp):
-                        if c.get('m') in ('push', 'extend') and (H.root_local(c['recv']) or {}).get('hid') == stack['hid']:
-                            arm = next((a for a in H.ancestors(fc, c) if a.get('k') == 'Arm'), None)
-                            if arm is not None:
-                                pt = pp(arm['pat'])
-                                kind = 'BrCond' if 'BrCond' in pt else 'Br' if 'Terminator::Br' in pt else None
-                                if kind:
-                                    pushed[kind] = pushed.get(kind, 0) + (1 if c['m'] == 'push' else len((H.strip_refs(c['args'][0]).get('es') or [0, 0])))
-                    if pushed.get('Br', 0) >= 1 and pushed.get('BrCond', 0) >= 2:
-                        # which vector does the worklist set, and does it feed `vec` for blocks holding statements?
-                        live = None
-                        for x in walk(lp):
-                            if x.get('k') == 'Index' and 'bool' in (L.ty(x) or '') and (H.root_local(x['e']) or {}).get('hid') != vh:
-                                live = H.root_local(x['e'])
-                        sb = fc and H.binding_sites(fc).get(stack['hid'])
-                        init0 = sb is not None and sb['kind'] == 'let' and any(H.lit_value(x) == 0 for x in walk(sb['node']['init']))
-                        if live is not None and init0:
-                            for w in writes:
-                                cs = ' && '.join(w['conds'])
-                                if live.get('name') and re.search(r'\b%s\[' % re.escape(live['name']), cs) and 'is_empty()' in cs:
-                                    closure_ok = True
-                            if (live or {}).get('hid') == vh:
-                                closure_ok = True
+                live = forward_closure(fc, vh)
+                if live is None:
+                    for c in H.calls_in(fc['body']):
+                        g = L.fn(H.callee(c) or H.callee_decl(c) or '?')
+                        if g is None or g is fc or g.get('body') is None or not g['path'].startswith('tir::core::') or 'Vec<bool>' not in (g.get('output') or ''):
+                            continue
+                        lv = forward_closure(g)
+                        rets = [H.root_local(x) for x in H.return_exprs(g['body'])]
+                        if lv is not None and rets and all(r is not None and r.get('hid') == lv.get('hid') for r in rets):
+                            par = H.parents(fc).get(id(c))
+                            if par is not None and par.get('k') == 'Let' and par['pat'].get('k') == 'Bind':
+                                live = {'hid': par['pat']['hid'], 'name': par['pat'].get('name')}
+                                ck.analysed(g['path'])
+                if live is not None:
+                    for w in writes:
+                        cs = ' && '.join(w['conds'])
+                        if live.get('name') and re.search(r'\b%s\[' % re.escape(live['name']), cs) and 'is_empty()' in cs:
+                            closure_ok = True
+                    if live.get('hid') == vh:
+                        closure_ok = True
                 empt = any(pos and 'statements.is_empty()' in pp(c) for c, pos in guards)
                 ok = br_direct or closure_ok or empt
                 ck.ob('R6.4', 'unreachable-implies-dead', ok, L.loc(site),
